@@ -243,6 +243,12 @@ def graph_spec(nodes, rng=None):
     odd = ["String", "f32", "f64", "Vec", "Option", "Box", "Bytes", "T", "Error", "usize", "str", "Self_", "Result", "Some", "None"]
     pool = rng.shuffle(odd) if (rng and rng.chance(1, 4)) else None
     name = lambda i: ((pool[i] if pool and i < len(pool) else "g%d" % i) if i >= 0 else "undeclared")
+    # one graph in three (plain names only): members are named like declarations — the opaque member like its own struct / union
+    # (`struct data { opaque data<>; }`), a reference like the type it names (`entry *entry`) or like its owner.  A member's name
+    # is not a reference; the index is about types
+    collide = bool(rng) and pool is None and rng.chance(1, 3)
+    mname = lambda default, owner, target=None: (rng.choice([name(owner), name(owner), name(target) if target is not None and target >= 0 else name(owner), default])
+                                                 if collide else default)
     for i, (kind, own, refs) in enumerate(nodes):
         if kind == "typedef":
             # a typedef of a primitive: every spelling whose Rust name differs from the XDR one is in the draw
@@ -254,10 +260,13 @@ def graph_spec(nodes, rng=None):
         elif kind == "struct":
             fs = []
             if own:
-                fs.append({"ty": "opaque", "name": "o", "arr": (rng.choice([None, ["var", ""], ["fixed", "4"]]) if rng else ["var", ""]), "opt": False})
+                fs.append({"ty": "opaque", "name": mname("o", i), "arr": (rng.choice([None, ["var", ""], ["fixed", "4"]]) if rng else ["var", ""]), "opt": False})
             for j, r in enumerate(refs):
                 c = rng.below(4) if rng else 0
-                fs.append({"ty": name(r), "name": "f%d" % j, "arr": [None, ["fixed", "2"], ["var", ""], None][c], "opt": c == 3})
+                fn = mname("f%d" % j, i, r)
+                if any(f["name"] == fn for f in fs):
+                    fn = "f%d" % j
+                fs.append({"ty": name(r), "name": fn, "arr": [None, ["fixed", "2"], ["var", ""], None][c], "opt": c == 3})
             if rng and rng.chance(1, 2):
                 # primitive leaves: no edge, whatever the declarations are called
                 for j in range(1 + rng.below(2)):
@@ -269,7 +278,7 @@ def graph_spec(nodes, rng=None):
         else:
             arms = []
             lab = 0
-            bodies = ([{"ty": "opaque", "name": "o", "arr": None}] if own else []) + [{"ty": name(r), "name": "a%d" % j, "arr": None} for j, r in enumerate(refs)]
+            bodies = ([{"ty": "opaque", "name": mname("o", i), "arr": None}] if own else []) + [{"ty": name(r), "name": mname("a%d" % j, i, r), "arr": None} for j, r in enumerate(refs)]
             if rng and rng.chance(1, 2):
                 bodies.insert(rng.below(len(bodies) + 1), {"ty": rng.choice([p for p in PRIM_LEAVES if p != "string"]), "name": "p", "arr": None})
             for j, b in enumerate(bodies):
